@@ -47,7 +47,7 @@ func (vc *VC) heapWF(name, sym, alloc string) string {
 		}
 		return "(forall ((r!h Int)) (! " + w + " :pattern ((select " + sym + " r!h))))"
 	case strings.HasPrefix(name, "Mc$"):
-		return "(forall ((r!h Int)) (! (>= (select " + sym + " r!h) 0) :pattern ((select " + sym + " r!h))))"
+		return "(forall ((r!h Int)) (! (and (>= (select " + sym + " r!h) 0) (<= (select " + sym + " r!h) 9223372036854775807)) :pattern ((select " + sym + " r!h))))"
 	case strings.HasPrefix(name, "Mv$"):
 		if et == nil {
 			return "true"
@@ -261,7 +261,7 @@ func (vc *VC) mapNew(st *State, t types.Type) Term {
 func (vc *VC) cardFacts(st *State, mi mapHeaps, ref string) string {
 	c := vc.mapCard(st, mi, ref)
 	d := vc.mapDom(st, mi, ref)
-	return fmt.Sprintf("(and (>= %s 0) (= (= %s 0) (forall ((k!c %s)) (not (select %s k!c)))))", c, c, mi.ks, d)
+	return fmt.Sprintf("(and (>= %s 0) (<= %s 9223372036854775807) (= (= %s 0) (forall ((k!c %s)) (not (select %s k!c)))))", c, c, c, mi.ks, d)
 }
 
 // ---- channels (sequential model: buffer content as a slice value)
